@@ -493,3 +493,5 @@ MANIFEST = {
             "code (two known findings); advanced-index assignment whose value aliases the target is excluded "
             "(NumPy's own result is order-dependent there).",
 }
+
+MANIFEST_ADDENDUM = 'Also proved: inplace_on_base_seen_through_view (an update on a base is seen through its live view), inplace_on_owner_where_refines_numpy (where=-masked update: guarded call + ApplyMask in closed form). Oracle additions: programs with statements both sides reject and with dropped handles; views made with mutable argument objects that the caller changes afterwards.'
